@@ -1,0 +1,115 @@
+//! Verification hooks (cargo feature `verif`).
+//!
+//! A harness can register two callbacks that are invoked before and after every
+//! access of the [`Atom`](crate::atomic::Atom) wrapper. While callbacks are
+//! registered, `try_update`/`update` run as an explicit load-then-CAS loop, so
+//! that every single atomic memory operation is a scheduling point.
+//! Without registered callbacks nothing changes.
+
+use core::sync::atomic::{AtomicUsize, Ordering};
+
+use crate::{FrameId, LLFree, Result, RowId};
+
+/// Kind of an atomic access
+#[derive(Debug, Clone, Copy, PartialEq, Eq)]
+#[repr(u8)]
+pub enum Kind {
+    Load = 0,
+    Store = 1,
+    Swap = 2,
+    Cas = 3,
+    /// `fetch_or` / `fetch_and` and friends
+    Rmw = 4,
+}
+
+/// Called before an access: kind, address, width in bytes
+pub type BeforeFn = fn(Kind, usize, usize);
+/// Called after an access: kind, address, width, value (read / previous / stored), success
+pub type AfterFn = fn(Kind, usize, usize, u64, bool);
+
+static BEFORE: AtomicUsize = AtomicUsize::new(0);
+static AFTER: AtomicUsize = AtomicUsize::new(0);
+
+/// Register (or with `None` remove) the callbacks
+pub fn set_hooks(hooks: Option<(BeforeFn, AfterFn)>) {
+    match hooks {
+        Some((b, a)) => {
+            AFTER.store(a as usize, Ordering::SeqCst);
+            BEFORE.store(b as usize, Ordering::SeqCst);
+        }
+        None => {
+            BEFORE.store(0, Ordering::SeqCst);
+            AFTER.store(0, Ordering::SeqCst);
+        }
+    }
+}
+
+#[inline]
+pub fn enabled() -> bool {
+    BEFORE.load(Ordering::Relaxed) != 0
+}
+
+#[inline]
+pub fn before(kind: Kind, addr: usize, width: usize) {
+    let f = BEFORE.load(Ordering::Relaxed);
+    if f != 0 {
+        let f: BeforeFn = unsafe { core::mem::transmute(f) };
+        f(kind, addr, width);
+    }
+}
+
+#[inline]
+pub fn after(kind: Kind, addr: usize, width: usize, value: u64, ok: bool) {
+    let f = AFTER.load(Ordering::Relaxed);
+    if f != 0 {
+        let f: AfterFn = unsafe { core::mem::transmute(f) };
+        f(kind, addr, width, value, ok);
+    }
+}
+
+/// Raw bits of an atomic's underlying integer (at most 8 bytes)
+#[inline]
+pub fn bits<V: Copy>(v: &V) -> u64 {
+    let mut out = 0u64;
+    let n = size_of::<V>().min(8);
+    unsafe {
+        core::ptr::copy_nonoverlapping(
+            core::ptr::from_ref(v).cast::<u8>(),
+            core::ptr::from_mut(&mut out).cast::<u8>(),
+            n,
+        );
+    }
+    out
+}
+
+/// The compiled (private) row search of the bitfield
+pub fn first_zeros_aligned(v: u64, order: usize) -> Option<(u64, usize)> {
+    crate::bitfield::verif_first_zeros_aligned(v, order)
+}
+
+/// Directed allocation in the lower allocator: search the tree of row `start_row`
+pub fn lower_get(
+    alloc: &LLFree,
+    start_row: usize,
+    order: usize,
+    frame: Option<usize>,
+) -> Result<usize> {
+    alloc
+        .lower
+        .get(RowId(start_row), order, frame.map(FrameId))
+        .map(|f| f.0)
+}
+
+/// Free in the lower allocator only
+pub fn lower_put(alloc: &LLFree, frame: usize, order: usize) -> Result<()> {
+    alloc.lower.put(FrameId(frame), order)
+}
+
+/// Re-run the recovery of the lower allocator
+pub fn lower_recover(alloc: &LLFree) {
+    alloc.lower.recover();
+}
+
+/// Constants that are private to the crate
+pub const RETRIES: usize = crate::RETRIES;
+pub const MIN_FREE: usize = crate::trees::Trees::MIN_FREE;
